@@ -41,7 +41,24 @@ def _freeze(v):
         return ('l',) + tuple(_freeze(x) for x in v)
     if isinstance(v, tuple):
         return ('t',) + tuple(_freeze(x) for x in v)
-    raise UnknownState('cannot canonicalise %r' % (v,))
+    if isinstance(v, (set, frozenset)):
+        return ('s', isinstance(v, frozenset)) + tuple(sorted((_freeze(x) for x in v), key=repr))
+    # immutable helper objects (a compiled struct layout or pattern, a function, a class): identified by what they
+    # are, handed back by reference
+    import struct, re, types
+    if isinstance(v, struct.Struct):
+        tok = ('o', 'Struct', v.format)
+    elif isinstance(v, re.Pattern):
+        tok = ('o', 'Pattern', v.pattern)
+    elif isinstance(v, (types.FunctionType, types.BuiltinFunctionType, types.MethodType, type, types.ModuleType)):
+        tok = ('o', type(v).__name__, getattr(v, '__qualname__', getattr(v, '__name__', '?')))
+    else:
+        raise UnknownState('cannot canonicalise %r' % (v,))
+    _OPAQUE[tok] = v
+    return tok
+
+
+_OPAQUE = {}
 
 
 def _thaw(v):
@@ -55,6 +72,10 @@ def _thaw(v):
             return [_thaw(x) for x in v[1:]]
         if tag == 't':
             return tuple(_thaw(x) for x in v[1:])
+        if tag == 's':
+            return (frozenset if v[1] else set)(_thaw(x) for x in v[2:])
+        if tag == 'o':
+            return _OPAQUE[v]
     return v
 
 
